@@ -30,6 +30,7 @@ CONSTANTS
   MaxOps = 3
   MaxSnaps = 2
   MaxClock = 10
+  ExportFrom = 0
   WithPost = FALSE
   Bugs = {}
 VIEW View
